@@ -76,7 +76,7 @@ Match(e, optLine) ==
   \* the link: what reaches the connection in a step is what was handed to transport.send if the link is up; with the link
   \* down it is dropped - nothing is kept for later (Gateway.tla has no queue of unsent commands to retry from)
   /\ Clause("wire",    InP("out") /\ e.haswire => e.wire = (IF e.linkup THEN e.out ELSE <<>>))
-  /\ Clause("outvalid", InP("out")   => \A i \in 1..Len(e.out) : OutValid(e.out[i], e.outp[i]))
+  /\ Clause("outvalid", InP("out") /\ e.a # "Send" => \A i \in 1..Len(e.out) : OutValid(e.out[i], e.outp[i]))
   /\ Clause("cb",      InP("cb")      => CbMatch(e, optLine))
   /\ Clause("cbseen",  InP("cb")      => CbSeen(e))
   /\ Clause("tree",    InP("tree")    => e.st.tree = TreeSeq(nodes'))
@@ -110,8 +110,15 @@ StepAction(e) ==
   \/ /\ e.a = "SetChild"
      /\ CSetChild(e.n, e.c, e.t, e.v, e.ack)
      /\ Match(e, <<>>)
-  \/ /\ e.a = "UpdateFw"
+  \/ /\ e.a = "UpdateFw" /\ ~e.bad
      /\ CUpdateFw({e.nids[i] : i \in 1..Len(e.nids)}, <<e.f[1], e.f[2]>>, e.img)
+     /\ Match(e, <<>>)
+  \/ /\ e.a = "UpdateFw" /\ e.bad
+     /\ CUpdateFwBad
+     /\ Match(e, <<>>)
+  \/ /\ e.a = "Send"
+     /\ CSend /\ out' = CmdsOf(e.out)          \* exactly the caller's string, once
+     /\ Clause("sendonce", Len(e.out) = 1)
      /\ Match(e, <<>>)
   \/ /\ e.a = "Metric" /\ CMetric(e.b) /\ Match(e, <<>>)
   \/ /\ e.a = "StartPersist" /\ StartPersist /\ Match(e, <<>>)
